@@ -19,6 +19,19 @@ MODS = ['', 'm', 'ma', 'n']
 OPS = {'lt': operator.lt, 'le': operator.le, 'gt': operator.gt, 'ge': operator.ge}
 
 
+class Proxy:
+    """An opaque foreign object without __name__ that answers comparisons
+    itself: the interface has to step back (NotImplemented) for == and !=."""
+
+    def __eq__(self, other):
+        return True
+
+    def __ne__(self, other):
+        return False
+
+    __hash__ = None
+
+
 class Named:
     def __init__(s, n, m):
         s.__name__ = n
@@ -38,6 +51,10 @@ def universe():
           for n in NAMES for m in MODS]
     twin = InterfaceClass(fresh('ab'), (Interface,), {}, __module__=fresh('ma'))
     twin2 = InterfaceClass('\xe9', (Interface,), {}, __module__=fresh('ma'))
+    # ... and a twin that *shares* the very string objects of the interface it
+    # equals (what two executions of one class statement in one module give)
+    orig = IF[NAMES.index('b') * len(MODS) + MODS.index('n')]
+    twin3 = InterfaceClass(orig.__name__, (Interface,), {}, __module__=orig.__module__)
 
     def mkcls(n, mod='cm'):
         return type(n, (), {'__module__': mod})
@@ -48,10 +65,12 @@ def universe():
         labels[id(x)] = 'if%d' % i
     labels[id(twin)] = 'twin_a_m'
     labels[id(twin2)] = 'twin_e_ma'
+    labels[id(twin3)] = 'twin_b_n_shared_strings'
     for i, s in enumerate(SPECS):
         labels[id(s)] = 'spec%d' % i
-    foreign = [3, 'a', object(), Named, len, sys, Named('a', 'm'), Named('zz', 'zz'), (), 1.5]
-    return IF, [twin, twin2], SPECS, foreign, labels, K
+    foreign = [3, 'a', object(), Named, len, sys, Named('a', 'm'), Named('zz', 'zz'), (), 1.5,
+               Proxy()]
+    return IF, [twin, twin2, twin3], SPECS, foreign, labels, K
 
 
 def key(x):
@@ -80,6 +99,45 @@ def odd_names():
         return ('eq-raises-between-None-named-and-named-interface', key(a), key(d))
     if r != (False, True, False, True):
         return ('eq', key(a), key(d), r)
+    return None
+
+
+def key_is_final():
+    """The (name, module) key of a class specification is final from the moment
+    the specification becomes visible to other objects: a base that keeps its
+    dependents in key order (it learns of them through subscribe()) must see
+    the key the specification has afterwards."""
+    from zope.interface import implementer, classImplements
+    seen = []
+
+    class Recording(InterfaceClass):
+        def subscribe(self, dependent):
+            InterfaceClass.subscribe(self, dependent)
+            if hasattr(dependent, 'declared'):
+                seen.append((dependent, (dependent.__name__, dependent.__module__)))
+    IRec = Recording(fresh('IRec'), __module__=fresh('pk.r'))
+
+    @implementer(IRec)
+    def factory():
+        pass
+
+    @implementer(IRec)
+    class ByDecorator:
+        pass
+
+    class OldStyle:
+        __implemented__ = IRec
+    implementedBy(OldStyle)
+
+    class ByCall:
+        pass
+    classImplements(ByCall, IRec)
+    if len(seen) < 4:
+        return ('key-is-final:subscribe-not-seen', len(seen))
+    for spec, k in seen:
+        if k != (spec.__name__, spec.__module__):
+            return ('key-changes-after-the-specification-became-visible', k,
+                    (spec.__name__, spec.__module__))
     return None
 
 
@@ -130,7 +188,7 @@ def laws(arg):
         if (a < b) != (b > a) or (a <= b) != (b >= a):
             bad('reflected', ka, kb)
         matrix.append(row)
-    v = odd_names()
+    v = odd_names() or key_is_final()
     if v:
         bad(*v)
     for a in U:
@@ -150,7 +208,10 @@ def laws(arg):
                 continue
             if r[0] == r[1] or r[2] == r[3] or r[0] != r[2]:
                 bad('foreign-eq-ne', key(a), repr(f)[:30], r)
-            if not (hasattr(f, '__name__') and hasattr(f, '__module__')) and r[0]:
+            if isinstance(f, Proxy):
+                if r != (True, False, True, False):
+                    bad('foreign-eq-not-delegated', key(a), r)
+            elif not (hasattr(f, '__name__') and hasattr(f, '__module__')) and r[0]:
                 bad('foreign-eq-true', key(a), repr(f)[:30])
             matrix.append(list(r))
     D = [x for x in U if x not in twins and x is not SPECS[2]]
